@@ -48,6 +48,8 @@ def unit_rac(eng):
         ("x = e\ny = s\n.link 1000 + x - y\nnop\ns: nop\nnop\ne: nop\n", 0o1004), ("x = e\n.link 1000 + x - s\nnop\ns: nop\nnop\ne: nop\n", 0o1004),
         ("x = e\n.link 1000 + s - x\nnop\ns: nop\nnop\ne: nop\n", 0o774), ("x = e\ny = s\n.link 1000 + 3*x - 3*y\nnop\ns: nop\nnop\ne: nop\n", 0o1014),
         ("x = e\ny = s + 2\n.link 2000 - x + y\nnop\ns: nop\nnop\ne: nop\n", 0o1776),
+        # the directive at offset 0 behind a label at offset 0 (the label's address is the bare base promise)
+        ("start: .link 2000 + end - start\n.word 1\nend: .word 2\n", 0o2002), ("start: . = 2000 + 2*<end - start>\n.word 1\nend: .word 2\n", 0o2004),
     ]
     bad_progs = [".link 1000\nnop\n.link 1000\n", ".link 1000+e-.\nnop\n.link 1000+e-.\ne: nop\n", "x = e\n.link 1000 + x + s\nnop\ns: nop\ne: nop\n", "x = e\n.link x\nnop\ne: nop\n", ".link a\na: nop\n", ".link 100\n.link 200\nnop\n", ".link s + 2\ns: nop\n", ".link 1000\n.blkb 10\n. = 1004\nnop\n"]
     # a '. =' skip between the labels of a cancelling link expression (finding D39: reported as recursive-definition)
@@ -122,6 +124,12 @@ def replay(o, tree):
         return deferred_c.replay_poly_nested(o["cfg"], o.get("witness") or {}, tree)
     if (o.get("cfg") or {}).get("kind") == "poly-selfref":
         return deferred_c.replay_poly_selfref(o["cfg"], o.get("witness") or {}, tree)
+    if (o.get("cfg") or {}).get("kind") == "wait-chain":
+        return deferred_c.replay_wait_chain(tree)
+    if (o.get("cfg") or {}).get("kind") == "promise-pending":
+        return deferred_c.replay_promise_pending(tree)
+    if (o.get("cfg") or {}).get("kind") == "poly-scalar":
+        return deferred_c.replay_poly_scalar(o["cfg"], tree)
     if (o.get("cfg") or {}).get("kind") == "poly-mul":
         return deferred_c.replay_poly_mul(o["cfg"], o.get("witness") or {}, tree)
     if (o.get("cfg") or {}).get("kind") == "linkfiles":
